@@ -7,14 +7,17 @@
 pub struct OnceLock<T> { inner: std::sync::OnceLock<T> }
 impl<T> OnceLock<T> {
     pub uninterp spec fn winner(&self) -> Option<T>;
+    /// "a value is in the cell": a stable fact (write-once), so it can be a timeless predicate; it is *provable* only
+    /// after a call whose postcondition gives it, which is what orders "store" before "wake" in set_conn_error_and_wake
+    pub uninterp spec fn stored(&self) -> bool;
     #[verifier::external_body]
     pub fn get(&self) -> (r: Option<&T>)
-        ensures r is Some ==> self.winner() == Some(*r.unwrap()),
+        ensures r is Some ==> self.winner() == Some(*r.unwrap()) && self.stored(),
     { self.inner.get() }
     #[verifier::external_body]
     pub fn get_or_init<F: FnOnce() -> T>(&self, f: F) -> (r: &T)
         requires f.requires(()),
-        ensures self.winner() == Some(*r),
+        ensures self.winner() == Some(*r), self.stored(),
     { self.inner.get_or_init(f) }
 }
 // futures_util::task::AtomicWaker: no observable effect in contracts (this is why wake ordering is not decided)
